@@ -198,11 +198,12 @@ func runC18(c *Ctx) {
 	for _, st := range rootStores {
 		ok, bad := allOrigins(st.Val,
 			oFieldLoad(tlsOptsT, "LoadedCAPool", nil),
+			oNil(), // (no CA option given: the system pool — checked path by path below)
 			oCall(-1, "crypto/x509.NewCertPool"),
 			oCallWhere(-1, "rt/client.basePool", func(call *ssa.Call) bool { return optField("LoadedCAPool")(call.Call.Args[0]) }))
 		c.obI("R18.4", st, "RootCAs-origin", ok, "tls.Config.RootCAs originates only from opts.LoadedCAPool, a new empty pool, or basePool(opts.LoadedCAPool)", "origin "+describeOrigin(bad))
 	}
-	c.min("R18.4", 4)
+	c.min("R18.4", 3)
 	for _, fn := range p.LibFuncs() {
 		for _, ci := range callsIn(fn, "crypto/x509.SystemCertPool") {
 			c.obI("R18.4", ci, "system-pool", false, "the library never loads the system certificate pool", "call to x509.SystemCertPool")
@@ -218,7 +219,21 @@ func runC18(c *Ctx) {
 		{"LoadedCAPool", factNil(optField("LoadedCAPool"), true)},
 	} {
 		for _, r := range succ {
-			miss := pathExists(f, nil, r, o.absent, isFieldStore(tlsConfigT, "RootCAs"))
+			// a store of nil (what a helper returns when no CA option is given) does not count as setting the pool:
+			// evaluated along the path, i.e. for the very return the helper came back through
+			setsPool := func(in ssa.Instruction) bool {
+				if !isFieldStore(tlsConfigT, "RootCAs")(in) {
+					return false
+				}
+				allNil := true
+				for _, og := range originsOf(in.(*ssa.Store).Val) {
+					if !isNilConst(og.V) {
+						allNil = false
+					}
+				}
+				return !allNil
+			}
+			miss := pathExists(f, nil, r, o.absent, setsPool)
 			c.obI("R18.4", r, "RootCAs-set-when-"+o.name, !miss, "every success path on which opts."+o.name+" is present stores tls.Config.RootCAs (never falls back to the system pool)", "a success path with the option present leaves RootCAs unset")
 		}
 	}
@@ -240,7 +255,7 @@ func runC18(c *Ctx) {
 		elems, ok := sliceLitElems(st.Val)
 		if ap := asCall(st.Val); !ok && ap != nil && calleeName(&ap.Call) == "builtin append" && len(ap.Call.Args) == 2 {
 			// append(cfg.Certificates, pair): whatever the field held before was stored under this same rule
-			if isNilConst(ap.Call.Args[0]) || vFieldLoad(tlsConfigT, "Certificates", nil)(ap.Call.Args[0]) {
+			if isNilConst(ap.Call.Args[0]) || vFieldLoad(tlsConfigT, "Certificates", nil)(ap.Call.Args[0]) || freshSlice(ap.Call.Args[0], 0) {
 				elems, ok = sliceLitElems(ap.Call.Args[1])
 			}
 		}
